@@ -19,10 +19,12 @@ def PaySpec (S : Schema) (T : String → Bytes → Bytes) (r : Rec) (env : List 
   | .reserved w s value => v = .int value ∧ ∃ view, decInt w s view = value
   | .ref ty _ => FromDec r ty v
   | .barray sf => ∃ n b, envInt env sf = .ok n ∧ v = .bytes b ∧ b.length = n.toNat
-  | .array elem mode _ _ key =>
+  | .array elem mode align _ key =>
     ∃ l, v = .arr l ∧ l.length ≤ maxCount ∧ (∀ e ∈ l, FromDec r elem e) ∧
       (∀ cf, mode = .count cf → ∃ n, envInt env cf = .ok n ∧ l.length = n.toNat ∧
-        (∀ k, key = some k → ∃ keys, l.mapM (sortKeyOf S T elem k) = .ok keys ∧ strictlyAscending keys = true))
+        (∀ k, key = some k → ∃ keys, l.mapM (sortKeyOf S T elem k) = .ok keys ∧ strictlyAscending keys = true)) ∧
+      (mode = .fill → align = 0 → ∀ k, key = some k →
+        ∃ keys, l.mapM (sortKeyOf S T elem k) = .ok keys ∧ strictlyAscending keys = true)
 
 theorem envInt_ok {env : List (String × Val)} {n : String} {i : Int} (h : envInt env n = .ok i) :
     Val.get env n = some (.int i) := by
@@ -47,8 +49,8 @@ theorem PaySpec.mono {S : Schema} {T : String → Bytes → Bytes} {r : Rec} {en
     exact ⟨n, b, envInt_mono h1, h2, h3⟩
   | array elem mode al pl key =>
     simp only [hk] at h ⊢
-    obtain ⟨l, h1, h2, h3, h4⟩ := h
-    refine ⟨l, h1, h2, h3, ?_⟩
+    obtain ⟨l, h1, h2, h3, h4, h5⟩ := h
+    refine ⟨l, h1, h2, h3, ?_, h5⟩
     intro cf hcf
     obtain ⟨n, hn1, hn2, hn3⟩ := h4 cf hcf
     exact ⟨n, envInt_mono hn1, hn2, hn3⟩
@@ -114,7 +116,7 @@ theorem decPayload_spec {S : Schema} {T : String → Bytes → Bytes} {r : Rec} 
         obtain ⟨l', hl', hlen, hfrom, hkeys⟩ := decArrayCount_ok S T r elem key n.toNat view none [] l hl
         simp only [List.reverse_nil, List.nil_append] at hl'
         subst hl'
-        refine ⟨l, h.1.symm, by omega, hfrom, ?_⟩
+        refine ⟨l, h.1.symm, by omega, hfrom, ?_, fun hm => by cases hm⟩
         intro cf' hcf'
         simp only [ArrMode.count.injEq] at hcf'
         subst hcf'
@@ -127,23 +129,39 @@ theorem decPayload_spec {S : Schema} {T : String → Bytes → Bytes} {r : Rec} 
       · simp [bind, Except.bind, throw, throwThe, MonadExceptOf.throw] at h
       · rename_i hmax
         simp only [Except.ok.injEq, Prod.mk.injEq] at h
-        exact ⟨l, h.1.symm, by omega, decArrayAligned_ok r elem al pl _ _ l hl, fun cf hcf => by cases hcf⟩
+        exact ⟨l, h.1.symm, by omega, decArrayAligned_ok r elem al pl _ _ l hl, (fun cf hcf => by cases hcf),
+          (fun hm => by cases hm)⟩
     | fill =>
       simp only at h
       split at h
-      · obtain ⟨l, hl, h⟩ := bind_eq_ok.mp h
+      · rename_i hal
+        obtain ⟨l, hl, h⟩ := bind_eq_ok.mp h
         split at h
         · simp [bind, Except.bind, throw, throwThe, MonadExceptOf.throw] at h
         · rename_i hmax
           obtain ⟨ss, -, h⟩ := bind_eq_ok.mp h
           simp only [Except.ok.injEq, Prod.mk.injEq] at h
-          exact ⟨l, h.1.symm, by omega, decArrayAligned_ok r elem al pl _ _ l hl, fun cf hcf => by cases hcf⟩
+          refine ⟨l, h.1.symm, by omega, decArrayAligned_ok r elem al pl _ _ l hl, (fun cf hcf => by cases hcf), ?_⟩
+          intro _ hal0
+          simp [hal0] at hal
       · obtain ⟨l, hl, h⟩ := bind_eq_ok.mp h
         split at h
         · simp [bind, Except.bind, throw, throwThe, MonadExceptOf.throw] at h
         · rename_i hmax
-          obtain ⟨ss, -, h⟩ := bind_eq_ok.mp h
-          simp only [Except.ok.injEq, Prod.mk.injEq] at h
-          exact ⟨l, h.1.symm, by omega, decArrayFill_ok r elem _ _ l hl, fun cf hcf => by cases hcf⟩
+          obtain ⟨sorted, hsorted, h⟩ := bind_eq_ok.mp h
+          split at h
+          · simp [bind, Except.bind, throw, throwThe, MonadExceptOf.throw] at h
+          · rename_i hs
+            obtain ⟨ss, -, h⟩ := bind_eq_ok.mp h
+            simp only [Except.ok.injEq, Prod.mk.injEq] at h
+            refine ⟨l, h.1.symm, by omega, decArrayFill_ok r elem _ _ l hl, (fun cf hcf => by cases hcf), ?_⟩
+            intro _ _ k hk'
+            subst hk'
+            simp only at hsorted
+            obtain ⟨keys, hkeys, hsorted⟩ := bind_eq_ok.mp hsorted
+            simp only [Except.ok.injEq] at hsorted
+            refine ⟨keys, hkeys, ?_⟩
+            rw [hsorted]
+            simpa using hs
 
 end SymbolVerif.Codec
